@@ -160,9 +160,43 @@ func twoLetterTargets(max int) []string {
 	return out
 }
 
+// reuseWords: a metavariable bound in an early section and used again in a later one, with
+// two or three elisions around: words over {a, b, x, D} of length 5..6 with x exactly twice.
+// Whether the tail of the list matches depends on what x was bound to, so a search that caches
+// or prunes by list position alone goes wrong here.
+func reuseWords() []string {
+	var out []string
+	var rec func(w string)
+	rec = func(w string) {
+		if len(w) >= 5 {
+			nd := strings.Count(w, "D")
+			if nd >= 2 && nd <= 3 && strings.Count(w, "x") == 2 {
+				out = append(out, w)
+			}
+		}
+		if len(w) == 6 {
+			return
+		}
+		for _, ch := range "abxD" {
+			if ch == 'D' && strings.HasSuffix(w, "D") {
+				continue
+			}
+			if ch == 'x' && strings.Count(w, "x") == 2 {
+				continue
+			}
+			if ch == 'b' && !strings.Contains(w, "a") {
+				continue // b only after a: the two letters are interchangeable
+			}
+			rec(w + string(ch))
+		}
+	}
+	rec("")
+	return out
+}
+
 var (
-	c04Words    = append(patternWords(), longSectionWords()...)
-	c04NumShort = len(patternWords())
+	c04Words    = append(append(patternWords(), reuseWords()...), longSectionWords()...)
+	c04NumShort = len(patternWords()) + len(reuseWords())
 	c04Targets  = targetWords(5)
 	c04Targets2 = twoLetterTargets(8)
 )
@@ -330,7 +364,7 @@ func init() {
 		ID:    "C04",
 		Level: "exploration",
 		Rule: "small-scope table (thorough tier: complete; quick tier: complete for a third of the list kinds rotating with the seed plus the implicit-elision kind, every 4th pattern word for the rest): for each of 12 list kinds (the 12th is a top-level statement pattern with its implicit leading/trailing elision) (call arguments, unkeyed and keyed composite elements, unnamed and named parameters, results, struct fields, interface methods, " +
-			"block statements, case bodies, return values) every pattern word over {a, b, metavariable x, y (repeats included), '...'} of length 1..4 with 1..3 non-adjacent elisions " +
+			"block statements, case bodies, return values) every pattern word over {a, b, metavariable x, y (repeats included), '...'} of length 1..4 with 1..3 non-adjacent elisions, and every word of length 5..6 over {a, b, x, '...'} with 2..3 elisions in which x occurs twice (the tail's match depends on the earlier binding), " +
 			"is applied to every target list over {a,b,c} of length 0..5 (364 lists batched in one file); additionally every word with a section of 3-4 explicit elements from {a,b} next to elisions (D s D, a D s D, D s D b, s D, D s) against every list over {a,b} of length 0..8 (511 lists), where partial matches overlap the real one; both layouts (elisions on context lines; single-line '-'/'+' when there is one elision); " +
 			"'for ... {' against all loop header shapes; plus random longer lists. The output of every run is compared with the reference list matching (full backtracking, leftmost-shortest) " +
 			"and run reproduction. non-trivial = pattern has >=1 elision (all are); distinct = (list kind, layout, pattern word, target word).",
